@@ -53,10 +53,6 @@ def C05_statement : Prop :=
 theorem arg_bitvec_length (base : String) (t : QTy) :
     (translateArgument base t).bitvec.length = t.size := argNames_length t _
 
-theorem translateArguments_tys (sig : List (String × QTy)) :
-    (translateArguments sig).map (·.ty) = sig.map (·.2) := by
-  simp [translateArguments, translateArgument]
-
 theorem input_symbols_length (sig : List (String × QTy)) :
     (inputSymbols (translateArguments sig)).length = sizeList (sig.map (·.2)) := by
   induction sig with
@@ -78,22 +74,6 @@ theorem input_qubits_range (sig : List (String × QTy)) :
       simp only [translateArguments, List.map_cons, List.foldl_cons, sizeList] at ih ⊢
       rw [ih, arg_bitvec_length]; omega
   simp [inputQubits, h]
-
-theorem addQubits_numQubits (m : QMap) (ns : List Name) :
-    (m.addQubits ns).numQubits = m.numQubits + ns.length := by
-  induction ns generalizing m with
-  | nil => rfl
-  | cons n r ih => simp only [QMap.addQubits, List.foldl_cons] at ih ⊢; rw [ih]; simp [QMap.addQubit]; omega
-
-theorem addQubits_get_other (m : QMap) (ns : List Name) (k : Name) (h : k ∉ ns) :
-    (m.addQubits ns).get k = m.get k := by
-  induction ns generalizing m with
-  | nil => rfl
-  | cons n r ih =>
-    simp only [QMap.addQubits, List.foldl_cons] at ih ⊢
-    rw [ih _ (fun hk => h (List.mem_cons_of_mem _ hk))]
-    simp only [QMap.get, QMap.addQubit, dictGet_dictSet]
-    rw [if_neg]; intro e; exact h (by simp [e])
 
 /-- step 1 of the compiler puts the j-th input bit (in argument order, tuples depth-first) on
 qubit j -/
@@ -170,19 +150,6 @@ theorem decode_encode (t : QTy) (v : QVal) (h : WT t v) :
     | exact interpret_encode _ v h
     | (rw [List.take_of_length_le (by omega)]; exact interpret_encode _ v h)
 
-theorem zfill_binDigits {n m : Nat} (hm : 0 < m) (h : n < 2 ^ m) :
-    (zfill m (binDigits n)).map (· == '1') = (toBitsLE m n).reverse := by
-  have hlen : (binDigits n).length ≤ m := by
-    rw [binDigits_length]; split
-    · omega
-    · exact bitsLE_length_le h
-  have := binToBoolList_pyBin_reverse h
-  rw [← this, List.reverse_reverse]
-  unfold binToBoolList zfill
-  simp only [strip0b_pyBin, Option.getD_some, List.take_of_length_le hlen, List.length_map,
-    List.map_append, List.map_replicate]
-  rfl
-
 /-- integer readings (repaired model): the integer whose binary digits are the reading -/
 theorem decode_encode_int (t : QTy) (v : QVal) (h : WT t v) (hs : 0 < t.size) :
     decodeOutputInt Quirks.none (retArg t) (valLE (encode t v)) = v := by
@@ -241,20 +208,6 @@ theorem return_names_partial (q : Quirks) (e : RExp) (h : retNamesAgree e = true
   split
   · simpa [retNamesAgree, retArg, translateArgument] using h
   · simp [retNames_tyShape, retArg, translateArgument]
-
-theorem steps_get (steps : List (Name × Nat)) (m : QMap) (k : Name) :
-    ((steps.foldl (fun m s => m.mapQubit s.1 s.2) m).get k).isSome
-      ↔ (m.get k).isSome ∨ k ∈ steps.map (·.1) := by
-  induction steps generalizing m with
-  | nil => simp
-  | cons s r ih =>
-    simp only [List.foldl_cons, ih, List.map_cons, List.mem_cons]
-    simp only [QMap.get, QMap.mapQubit, dictGet_dictSet]
-    by_cases hk : s.1 = k
-    · simp [hk]
-    · simp [hk]; constructor
-      · rintro (h | h); exact Or.inl h; exact Or.inr (Or.inr h)
-      · rintro (h | h | h); exact Or.inl h; exact absurd h.symm hk; exact Or.inr h
 
 /-- the keys of the qubit map after compilation are the input bits and the symbols defined by
 the expression list -/
